@@ -12,6 +12,7 @@ def _metric_scale(
     axis: int,
     shape: tuple[int, int, int],
     stencil: str,
+    periodic: bool = False,
 ) -> jax.Array | float:
     """Return the local derivative scale for a rectilinear Yee curl term.
 
@@ -19,7 +20,8 @@ def _metric_scale(
     scalar Courant number in the update equations.  On a non-uniform grid the
     equivalent term is ``(c * dt / courant_number) * diff / d_axis[i]``.  The
     prefactor equals the uniform spacing on legacy grids, so uniform behavior is
-    unchanged while stretched grids get local metric factors.
+    unchanged while stretched grids get local metric factors.  On a ``periodic``
+    axis the cell behind the first one is the last cell of the neighbouring copy.
     """
     if not config.has_nonuniform_grid:
         return 1.0
@@ -28,7 +30,7 @@ def _metric_scale(
     assert grid is not None
     widths = grid.cell_widths(axis)
     if stencil == "backward":
-        prev_widths = jnp.concatenate([widths[:1], widths[:-1]])
+        prev_widths = jnp.concatenate([widths[-1:] if periodic else widths[:1], widths[:-1]])
         widths = 0.5 * (widths + prev_widths)
     elif stencil != "forward":
         raise ValueError(f"Unknown derivative stencil: {stencil}")
@@ -345,9 +347,15 @@ def curl_H(
             - The updated dictionary of auxiliary electric fields `psi_E`.
     """
     shape = H_pad.shape[1] - 2, H_pad.shape[2] - 2, H_pad.shape[3] - 2
-    dx_scale = _metric_scale(config, axis=0, shape=shape, stencil="backward")
-    dy_scale = _metric_scale(config, axis=1, shape=shape, stencil="backward")
-    dz_scale = _metric_scale(config, axis=2, shape=shape, stencil="backward")
+    # the min-side halo of a wrap-padded axis holds the last cell of the neighbouring copy
+    # (except behind a symmetry plane, which is never wrapped)
+    wrap = [
+        config.symmetry[axis] == 0 and any(b.uses_wrap_padding and b.axis == axis for b in objects.boundary_objects)
+        for axis in range(3)
+    ]
+    dx_scale = _metric_scale(config, axis=0, shape=shape, stencil="backward", periodic=wrap[0])
+    dy_scale = _metric_scale(config, axis=1, shape=shape, stencil="backward", periodic=wrap[1])
+    dz_scale = _metric_scale(config, axis=2, shape=shape, stencil="backward", periodic=wrap[2])
 
     Hx = H_pad[0]
     Hy = H_pad[1]
